@@ -569,4 +569,12 @@ def _driver(ctx):
     return rule_r7(ctx)
 
 
-RULES = [("C03-R7", _driver), ("C04-R1", rule_r1), ("C04-R2", rule_r2), ("C04-R3", rule_r3), ("C04-R4", rule_r4)]
+def _c02r5(ctx):
+    """Post-processing of the final text can delete characters of string literals (splitlines() also
+    splits at U+2028, U+2029, \\x0b, \\x0c, \\x1c-\\x1e, \\x85): shared rule C02-R5."""
+    from .c02 import rule_r5 as r
+
+    return r(ctx)
+
+
+RULES = [("C02-R5", _c02r5), ("C03-R7", _driver), ("C04-R1", rule_r1), ("C04-R2", rule_r2), ("C04-R3", rule_r3), ("C04-R4", rule_r4)]
